@@ -150,6 +150,13 @@ def run_C18(ctx):
     exec_run(ctx, "C18", 2, quick=500, thorough=30000)
 
 
+def run_C19(ctx):
+    corr_run(ctx, "calltracer", ["calltracer", "--n", n_cases(ctx, 1500, 60000)],
+             "Model/CallTracer.v (ct_run/ct_result, ctf_run/ctf_result incl. flatFromNested) vs the real callTracer / flatCallTracer from tracers.DefaultDirectory fed the same callback stream: "
+             "enumerated shapes (0..3 Aspects per join point x 0..2 calls per Aspect x body width 0..2 x Aspects on inner calls), random trees (depth <= 3), malformed streams; whole GetResult JSON compared field by field",
+             nontrivial=lambda c: c.get("aspects", 0) >= 1 and c.get("stream") != "malformed", has_oracle=True, oracle_prefix="C19")
+
+
 def run_C17(ctx):
     ok, out = driver.build_harness_race()
     if not ok:
@@ -388,6 +395,23 @@ PROPS.update({
 })
 
 PROPS.update({
+    "C19": {
+        "run": run_C19,
+        "technique": "Coq theorems (by induction over the mutually nested call/Aspect trees: the tracer's result is the tree's frame; no callback stream panics; flat traces have unique, prefix-closed addresses with exact sub-trace counts) + model correspondence against the real tracers' JSON",
+        "level_text": "Theorems in Coq, for every transaction tree of any depth and width (any number of Aspects per join point, any number of calls inside an Aspect, Aspects on those calls' join points): callTracer's result IS the frame of the tree "
+                      "(each call under its issuer, each Aspect execution with its own gas used/output/error, nothing twice or missing); with onlyTopCall it is the top frame with every Aspect execution once in entry order; "
+                      "flatCallTracer's callbacks leave the frame of the tree minus the precompile calls it filters, and its result lists each frame of that tree once in the shape 'frame, then its children's traces at indices 0..subtraces-1', "
+                      "from which uniqueness, prefix-closure and 'subtraces = number of emitted children' are proved; no stream of callbacks at all (well nested or not) makes either tracer panic. "
+                      "The executable model is run against the real tracers on every case (the full JSON is compared).",
+        "level_note": COMMON_NOTE + "Modelled, not verified: JSON marshalling (gen_callframe_json.go) is covered only by the correspondence (every field is parsed back from the JSON); revertReason, execContext, logs (withLog) and block/tx context fields are not modelled; "
+                      "the EVM reports a revert only with the vm.ErrExecutionReverted sentinel (text comparison in the model); flat_c is fuelled (8192 > call depth limit). "
+                      "Observed and modelled as is: calls to precompiles made by pre-transaction Aspects are not filtered by the flat tracer (it learns the precompile set at CaptureStart).",
+        "rule": "streams: (a) enumerated shapes pretx 0..2 x pre 0..3 x post 0..3 x calls-per-Aspect 0..2 x body 0..2 x inner-call Aspects 0..2 (every 7th at quick tier, all 1296 at thorough), (b) random trees of depth <= 3 with random widths, addresses incl. precompiles, "
+                "all call types, errors incl. revert, (c) well-nested streams with 1-3 events dropped, duplicated or swapped; configurations rotate over callTracer {onlyTopCall, withLog} and flatCallTracer {includePrecompiles, convertParityErrors}; "
+                "non-trivial = a well-nested stream with at least one Aspect execution; distinct = distinct case lines",
+        "modelled": ["tracers/native/call.go callTracer callbacks, processOutput, GetResult", "tracers/native/call_flat.go flatCallTracer callbacks, precompile filter, flatFromNested, flatAspectNested, convertErrorToParity"],
+        "assumptions": ["events of one transaction arrive sequentially (the tracer is not called concurrently)"],
+    },
     "C16": {
         "run": run_C16,
         "technique": "Coq theorems (every list-valued answer has a specified order depending only on what was recorded) + model correspondence comparing returned order + repetition runs in fresh instances",
